@@ -2,6 +2,8 @@ import RimeModel.C18.FlowThms
 /-! block-style round trip of C18 proved here, restated in Props/C18.lean -/
 namespace RimeModel.C18
 
+set_option linter.unusedSimpArgs false
+
 /-! ### entries -/
 
 def flattenEntries : List Entry → List Bytes
@@ -331,5 +333,233 @@ theorem block_map (pol : LitPolicy) (f d : Nat) (atEnd : Bool) (kvs : List (Byte
     rw [← hes, mapEntries_ok pol f d atEnd kvs hP hfd]
     simp only [Option.map_some]
     rw [buildMap_sorted _ (keysSorted_normM kvs hs)]
+
+/-! ### a node as a child of a block collection -/
+
+theorem scalarChunk_nonliteral (pol : LitPolicy) (s : Bytes) (h : styleOf pol false s ≠ .literal) :
+    scalarChunk pol s = ⟨32 :: inlineScalar pol false s, []⟩ := by
+  unfold scalarChunk inlineScalar
+  cases hst : styleOf pol false s with
+  | plain => rfl
+  | dq => rfl
+  | literal => exact absurd hst h
+
+theorem scalarChunk_literal (pol : LitPolicy) (s : Bytes) (h : styleOf pol false s = .literal) :
+    scalarChunk pol s = ⟨[32, 124], literalPieces s⟩ := by
+  unfold scalarChunk
+  rw [h]
+
+/-- a scalar as a block child -/
+theorem child_scalar (pol : LitPolicy) (blk : List Bytes → Bool → Option Cfg) (inSeq : Bool) (s : Bytes) (atEnd : Bool)
+    (hok : ScalarOK pol s) :
+    parseChildWith blk inSeq (scalarChunk pol s).first (indentLines 2 (scalarChunk pol s).rest) atEnd =
+      some (.scalar s) := by
+  by_cases hst : styleOf pol false s = .literal
+  · rw [scalarChunk_literal pol s hst, parseChildWith_cons]
+    simp only [ne_eq, not_true_eq_false, if_false, if_true]
+    rw [readLiteral_literalPieces s atEnd hok.1 (hok.2 (styleOf_block_literal pol s hst))]
+    rfl
+  · rw [scalarChunk_nonliteral pol s hst, parseChildWith_cons]
+    obtain ⟨plain, hp, hnw, _⟩ := parseInline_inlineScalar pol false s [] hok.1 restOK_nil
+    rw [List.append_nil] at hp
+    obtain ⟨b, r, e, hb⟩ := inlineScalar_head pol false s
+    have h124 : inlineScalar pol false s ≠ [124] := by
+      rw [e]; intro h; simp only [List.cons.injEq] at h
+      exact inlineStart_ne b hb 124 (by decide) h.1
+    have hsf : startsFlow (inlineScalar pol false s) = false := by
+      rw [e]
+      simp only [startsFlow, headIs, Bool.or_eq_false_iff, decide_eq_false_iff_not]
+      exact ⟨inlineStart_ne b hb 91 (by decide), inlineStart_ne b hb 123 (by decide)⟩
+    simp only [ne_eq, not_true_eq_false, if_false, h124, hsf, Bool.false_eq_true, hp]
+    simp only [List.isEmpty_nil, if_true, indentLines, List.map_nil, scalarNode]
+    cases plain <;> simp_all
+
+theorem spaces_zero : spaces 0 = [] := rfl
+
+/-- a flow collection as a block child starts right at its bracket (no padding when `2d ≤ col`) -/
+theorem emitFlow_list_head (pol : LitPolicy) (d col : Nat) (xs : List Cfg) (h : 2 * d ≤ col) :
+    ∃ r, emitFlow pol d col (.list xs) = 91 :: r := by
+  rw [emitFlow]
+  have e1 : 2 * d - 2 - col = 0 := by omega
+  have e2 : 2 * d - col = 0 := by omega
+  by_cases hi : hasItemL xs = true
+  · simp only [hi, if_true, e1, spaces_zero, List.nil_append]; exact ⟨_, rfl⟩
+  · simp only [hi, Bool.false_eq_true, if_false, e2, spaces_zero, List.nil_append, emptySeqText]; exact ⟨_, rfl⟩
+
+theorem emitFlow_map_head (pol : LitPolicy) (d col : Nat) (kvs : List (Bytes × Cfg)) (h : 2 * d ≤ col) :
+    ∃ r, emitFlow pol d col (.map kvs) = 123 :: r := by
+  rw [emitFlow]
+  have e1 : 2 * d - 2 - col = 0 := by omega
+  have e2 : 2 * d - col = 0 := by omega
+  by_cases hi : hasItemM kvs = true
+  · simp only [hi, if_true, e1, spaces_zero, List.nil_append]; exact ⟨_, rfl⟩
+  · simp only [hi, Bool.false_eq_true, if_false, e2, spaces_zero, List.nil_append, emptyMapText]; exact ⟨_, rfl⟩
+
+/-- a flow collection as a block child -/
+theorem child_flow (pol : LitPolicy) (blk : List Bytes → Bool → Option Cfg) (inSeq : Bool) (t : Cfg) (d col : Nat)
+    (atEnd : Bool) (hn : t.isNull = false) (hok : TreeOK pol t)
+    (hh : ∃ b r, emitFlow pol d col t = b :: r ∧ (b = 91 ∨ b = 123)) :
+    parseChildWith blk inSeq (32 :: emitFlow pol d col t) (indentLines 2 []) atEnd = some t.norm := by
+  obtain ⟨b, r, e, hb⟩ := hh
+  rw [parseChildWith_cons]
+  have h124 : emitFlow pol d col t ≠ [124] := by
+    rw [e]; intro h; simp only [List.cons.injEq] at h
+    rcases hb with hb | hb <;> (rw [hb] at h; exact absurd h.1 (by decide))
+  have hsf : startsFlow (emitFlow pol d col t) = true := by
+    rw [e]; rcases hb with hb | hb <;> (subst hb; rfl)
+  simp only [ne_eq, not_true_eq_false, if_false, h124, hsf, if_true, indentLines, List.map_nil, List.isEmpty_nil]
+  exact parseFlowLine_emitFlow pol t d col hn hok
+
+theorem emptySeq_line : parseFlowLine emptySeqText = some (.list []) := by rfl
+theorem emptyMap_line : parseFlowLine emptyMapText = some (.map []) := by rfl
+
+/-- **block round trip, child form.** Every non-null tree of the domain, written as a child of a block
+collection, is read back as its normal form. -/
+theorem block_rt (pol : LitPolicy) : ∀ n (t : Cfg), t.size ≤ n → TreeOK pol t → ∀ f, BlockElemOK pol f t := by
+  intro n
+  induction n with
+  | zero =>
+    intro t hs
+    cases t <;> simp [Cfg.size] at hs
+  | succ n ih =>
+    intro t hs hok f hnn d inSeq col atEnd hfd hcol
+    cases t with
+    | null => simp [Cfg.isNull] at hnn
+    | scalar s =>
+      rw [TreeOK] at hok
+      rw [emitChild]
+      exact child_scalar pol _ inSeq s atEnd hok
+    | list xs =>
+      have hokL : TreeOKL pol xs := by rw [TreeOK] at hok; exact hok
+      rw [emitChild]
+      by_cases hd : d ≥ flowDepth
+      · simp only [hd, if_true]
+        obtain ⟨r, e⟩ := emitFlow_list_head pol d col xs hcol
+        exact child_flow pol _ inSeq (.list xs) d col atEnd hnn hok ⟨91, r, e, Or.inl rfl⟩
+      · simp only [hd, if_false]
+        obtain ⟨f', rfl⟩ : ∃ f', f = f' + 1 := ⟨f - 1, by omega⟩
+        have hP : ∀ x ∈ xs, BlockElemOK pol f' x := fun x hx =>
+          ih x (by have := size_mem_lt xs x hx; simp [Cfg.size] at hs; omega) (treeOKL_mem pol xs hokL x hx) f'
+        by_cases hi : hasItemL xs = true
+        · have hb := block_seq pol f' d atEnd xs hP (by omega) hi
+          cases hes : emitSeq pol d xs with
+          | nil =>
+            rw [emitSeq_flatten, flattenEntries_nil_iff, seqEntriesOf_nil_iff] at hes
+            rw [hes] at hi; exact absurd hi (by simp)
+          | cons l ls =>
+            simp only
+            rw [parseChildWith_nil]
+            have hne : (indentLines 2 (l :: ls)).isEmpty = false := by simp [indentLines]
+            simp only [hne, Bool.false_eq_true, if_false]
+            rw [unindent2_indentLines]
+            simp only
+            rw [← hes, hb]
+            rfl
+        · have hi' : hasItemL xs = false := by simpa using hi
+          have hes : emitSeq pol d xs = [] := by
+            rw [emitSeq_flatten, flattenEntries_nil_iff, seqEntriesOf_nil_iff]; exact hi'
+          rw [hes]
+          simp only
+          rw [parseChildWith_nil]
+          have hne : (indentLines 2 [emptySeqText]).isEmpty = false := by simp [indentLines]
+          simp only [hne, Bool.false_eq_true, if_false]
+          rw [unindent2_indentLines]
+          simp only
+          have : parseBlock (f' + 1) [emptySeqText] atEnd = parseFlowLine emptySeqText := by
+            rw [parseBlock_succ]; rfl
+          rw [this, emptySeq_line]
+          simp [Cfg.norm, normL_of_no_item xs hi']
+    | map kvs =>
+      have hokM : keysSorted kvs = true ∧ TreeOKM pol kvs := by rw [TreeOK] at hok; exact hok
+      rw [emitChild]
+      by_cases hd : d ≥ flowDepth
+      · simp only [hd, if_true]
+        obtain ⟨r, e⟩ := emitFlow_map_head pol d col kvs hcol
+        exact child_flow pol _ inSeq (.map kvs) d col atEnd hnn hok ⟨123, r, e, Or.inr rfl⟩
+      · simp only [hd, if_false]
+        obtain ⟨f', rfl⟩ : ∃ f', f = f' + 1 := ⟨f - 1, by omega⟩
+        have hP : ∀ kv ∈ kvs, KeyOK pol kv.1 ∧ BlockElemOK pol f' kv.2 := fun kv hkv =>
+          ⟨(treeOKM_mem pol kvs hokM.2 kv hkv).1,
+           ih kv.2 (by have := sizeM_mem_lt kvs kv hkv; simp [Cfg.size] at hs; omega)
+             (treeOKM_mem pol kvs hokM.2 kv hkv).2 f'⟩
+        by_cases hi : hasItemM kvs = true
+        · have hb := block_map pol f' d atEnd kvs hP (by omega) hokM.1 hi
+          cases hes : emitMap pol d kvs with
+          | nil =>
+            rw [emitMap_flatten, flattenEntries_nil_iff, mapEntriesOf_nil_iff] at hes
+            rw [hes] at hi; exact absurd hi (by simp)
+          | cons l ls =>
+            simp only
+            -- the first line starts with a key and holds its colon
+            have hl : ∃ (k : Bytes) (c : Chunk), l = inlineScalar pol false k ++ 58 :: c.first ∧ KeyOK pol k := by
+              rw [emitMap_flatten] at hes
+              clear hb hi ih hs hok hnn
+              induction kvs with
+              | nil => simp [mapEntriesOf, flattenEntries] at hes
+              | cons kv kvs ihk =>
+                obtain ⟨k, v⟩ := kv
+                rw [mapEntriesOf] at hes
+                by_cases hx : v.isNull = true
+                · simp only [hx, if_true] at hes
+                  exact ihk ⟨keysSorted_tail _ _ hokM.1, (by have := hokM.2; rw [TreeOKM] at this; exact this.2.2)⟩
+                    (fun kv hkv => hP kv (List.mem_cons_of_mem _ hkv)) hes
+                · simp only [hx, Bool.false_eq_true, if_false, flattenEntries, List.cons.injEq] at hes
+                  exact ⟨k, _, hes.1.symm, (hP (k, v) (List.mem_cons_self ..)).1⟩
+            obtain ⟨k, c, hl, hk⟩ := hl
+            cases inSeq with
+            | false =>
+              simp only [Bool.false_eq_true, if_false]
+              rw [parseChildWith_nil]
+              have hne : (indentLines 2 (l :: ls)).isEmpty = false := by simp [indentLines]
+              simp only [hne, Bool.false_eq_true, if_false]
+              rw [unindent2_indentLines]
+              simp only
+              rw [← hes, hb]
+              rfl
+            | true =>
+              simp only [if_true]
+              rw [parseChildWith_cons]
+              obtain ⟨plain, hp, hnw, _⟩ := parseInline_inlineScalar pol false k (58 :: c.first) hk.1
+                (restOK_cons _ _ (by decide))
+              obtain ⟨b, r, e, hbb⟩ := inlineScalar_head pol false k
+              have h124 : l ≠ [124] := by
+                rw [hl, e]; intro h; simp only [List.cons_append, List.cons.injEq] at h
+                exact inlineStart_ne b hbb 124 (by decide) h.1
+              have hsf : startsFlow l = false := by
+                rw [hl, e]
+                simp only [List.cons_append, startsFlow, headIs, Bool.or_eq_false_iff, decide_eq_false_iff_not]
+                exact ⟨inlineStart_ne b hbb 91 (by decide), inlineStart_ne b hbb 123 (by decide)⟩
+              simp only [ne_eq, not_true_eq_false, if_false, h124, hsf, Bool.false_eq_true]
+              rw [hl, hp]
+              simp only [List.isEmpty_cons, Bool.false_eq_true, if_false, headIs, decide_true, Bool.and_self, if_true]
+              rw [unindent2_indentLines]
+              simp only
+              rw [← hl, ← hes, hb]
+              rfl
+        · have hi' : hasItemM kvs = false := by simpa using hi
+          have hes : emitMap pol d kvs = [] := by
+            rw [emitMap_flatten, flattenEntries_nil_iff, mapEntriesOf_nil_iff]; exact hi'
+          rw [hes]
+          simp only
+          cases inSeq with
+          | false =>
+            simp only [Bool.false_eq_true, if_false]
+            rw [parseChildWith_nil]
+            have hne : (indentLines 2 [emptyMapText]).isEmpty = false := by simp [indentLines]
+            simp only [hne, Bool.false_eq_true, if_false]
+            rw [unindent2_indentLines]
+            simp only
+            have : parseBlock (f' + 1) [emptyMapText] atEnd = parseFlowLine emptyMapText := by
+              rw [parseBlock_succ]; rfl
+            rw [this, emptyMap_line]
+            simp [Cfg.norm, normM_of_no_item kvs hi']
+          | true =>
+            simp only [if_true]
+            rw [parseChildWith_cons]
+            have h1 : emptyMapText ≠ [124] := by decide
+            have h2 : startsFlow emptyMapText = true := by decide
+            simp only [ne_eq, not_true_eq_false, if_false, h1, h2, if_true, indentLines, List.map_nil, List.isEmpty_nil]
+            rw [emptyMap_line]
+            simp [Cfg.norm, normM_of_no_item kvs hi']
 
 end RimeModel.C18
